@@ -12,6 +12,11 @@ ECS = [gen.STD_EC] + gen.ALT_ECS
 
 
 def _ec(i):
+    if i == 'const':
+        # the library's public constant itself, passed explicitly by the caller (it must stay what it is
+        # whatever set_default_encoding_chars() does)
+        from hl7apy import consts
+        return consts.DEFAULT_ENCODING_CHARS
     d = dict(ECS[i])
     return d
 
@@ -26,6 +31,7 @@ def gen_call(rng, tok, cid='a', kinds=None, invalid_p=0.1, version=None):
     level = rng.choice([STRICT, TOLERANT, TOLERANT])
     eci = rng.choice([0, 0, 0, 1, 2, 3])
     ec = ECS[eci]
+    use_const = eci == 0 and rng.random() < 0.25
     inv = invalid_p if rng.random() < 0.4 else 0.0
     if kind == 'parse_message':
         s = gen.pick_structure(rng, version)
@@ -37,7 +43,7 @@ def gen_call(rng, tok, cid='a', kinds=None, invalid_p=0.1, version=None):
         name = gen.pick_segment(rng, version)
         text = gen.segment_text(rng, version, name, ec, tok, invalid_p=inv, fill=rng.choice([0.2, 0.5]),
                                 overflow_p=rng.choice([0, 0, 0.15]))
-        return {'kind': kind, 'text': text, 'version': version, 'ec': eci, 'level': level,
+        return {'kind': kind, 'text': text, 'version': version, 'ec': 'const' if use_const else eci, 'level': level,
                 'then': rng.sample(['er7', 'er7_trailing', 'validate', 'names'], rng.choice([1, 2]))}
     if kind == 'parse_field':
         name = gen.pick_segment(rng, version)
@@ -149,6 +155,21 @@ def gen_call(rng, tok, cid='a', kinds=None, invalid_p=0.1, version=None):
             # the source is a parent-less segment parsed with the standard delimiters
             steps.append(['copy_field', seg, f[0], gen.segment_text(rng, version, seg, ECS[0], tok, fill=0.6)])
             continue
+        if r < 0.06:
+            z = rng.choice(['ZAA', 'ZBB', 'ZCC', 'ZDD'])
+            if rng.random() < 0.5:
+                steps.append(['add_segment', z])
+            else:
+                steps.append(['seg_text', z, ec['FIELD'].join([z, gen.valid_literal('ST', tok, rng)])])
+            continue
+        cflds = [c for c in flds if c[1][0] == 'sequence' and c[1][1] and not T.is_base(version, c[1][2])]
+        if cflds and 0.25 <= r < 0.36:
+            f = rng.choice(cflds)
+            comps = [(i + 1, c) for i, c in enumerate(f[1][1]) if c[1] is not None and c[2][1] != 0 and c[1][2] not in ('WD', None)]
+            if comps:
+                ci, ce = rng.choice(comps)
+                steps.append(['comp', seg, f[0], ce[0], gen.component_text(rng, version, ce[1], ec, tok, 0.7)])
+                continue
         if r < 0.25 or not flds:
             steps.append(['add_segment', seg])
         elif r < 0.5:
@@ -156,7 +177,7 @@ def gen_call(rng, tok, cid='a', kinds=None, invalid_p=0.1, version=None):
         else:
             f = rng.choice(flds)
             steps.append(['field', seg, f[0], gen.field_text(rng, version, f[1], ec, tok, 0.4, inv)])
-    return {'kind': 'build', 'name': s, 'version': version, 'level': level, 'ec': eci, 'steps': steps,
+    return {'kind': 'build', 'name': s, 'version': version, 'level': level, 'ec': 'const' if use_const else eci, 'steps': steps,
             'ctrl': '%s%d' % (cid, tok.next()),
             'then': rng.sample(['er7', 'er7_trailing', 'validate', 'names', 'mllp'], rng.choice([1, 2, 3]))}
 
@@ -215,6 +236,14 @@ def run_call(c, hook=None):
             if hook:
                 hook('alive', m)
             return {'ok': True, 'obs': _observe(m, c['then'])}
+        if kind == 'parse_segment' and c.get('implicit'):
+            # relies on the process defaults (set by whoever configured the process, in another thread)
+            s = P.parse_segment(c['text'])
+            return {'ok': True, 'obs': _observe(s, [t for t in c['then'] if t != 'validate'], _ec(0))}
+        if kind == 'factory' and c.get('implicit'):
+            d = datatype_factory(c['dt'], c['value'])
+            return {'ok': True, 'obs': {'cls': type(d).__name__, 'er7': d.to_er7(_ec(0)),
+                                        'level': getattr(d, 'validation_level', None)}}
         if kind == 'parse_segment':
             ec = _ec(c['ec'])
             s = P.parse_segment(c['text'], version=c['version'], encoding_chars=ec, validation_level=c['level'])
@@ -332,6 +361,9 @@ def run_call(c, hook=None):
                     elif st[0] == 'field':
                         seg = getattr(m, st[1])
                         setattr(seg, st[2], st[3])
+                    elif st[0] == 'comp':
+                        fld = getattr(getattr(m, st[1]), st[2])
+                        setattr(fld, st[3], st[4])
                     elif st[0] == 'grp_text':
                         setattr(m, st[1], st[2])
                     elif st[0] == 'msg_value':
